@@ -38,21 +38,35 @@ Theorem eq_sym : forall s1 s2, schema_eqb s1 s2 = schema_eqb s2 s1.
 Proof. exact eq_sym_lemma. Qed.
 Print Assumptions eq_sym.
 
-(* ---- reflexive unless a float parameter is NaN (finding F10).
+(* ---- reflexive, NaN parameters included (F10 is repaired: Props.__eq__ counts two NaN
+        parameters as equal).
         keys_distinct is the representation invariant of key tables: a Python dict has
-        pairwise distinct keys, the list of entries of the model could repeat one. ---- *)
+        pairwise distinct keys, the list of entries of the model could repeat one;
+        date_params_ok: a date parameter is a date or a datetime (all schema.date(v) accepts). ---- *)
 Theorem eq_refl :
-  forall s, keys_distinct s = true -> no_nan_params s = true -> schema_eqb s s = true.
+  forall s, keys_distinct s = true -> date_params_ok s = true -> schema_eqb s s = true.
 Proof. exact eq_refl_lemma. Qed.
 Print Assumptions eq_refl.
 
-Theorem eq_refl_refuted :
-  exists s, keys_distinct s = true /\ wf s = true /\ schema_eqb s s = false.
-Proof. exact eq_refl_refuted_lemma. Qed.
-Print Assumptions eq_refl_refuted.
+(* NaN parameters: schema.float(nan) equals itself, its rebuild (also inside list([..]),
+   list(..)), min(nan) == min(nan); unequal to float(1.0), float, and min(nan) != max(nan);
+   it validates nan and nothing else *)
+Example nan_params :
+  schema_eqb ex_float_nan ex_float_nan = true /\ schema_eqb_self ex_float_nan = true /\
+  schema_eqb (SFloat None (Some fnan) None None) (SFloat None (Some fnan) None None) = true /\
+  schema_eqb ex_float_nan (SFloat (Some (mkf false 1%Z 0%Z)) None None None) = false /\
+  schema_eqb (SFloat (Some (mkf false 1%Z 0%Z)) None None None) ex_float_nan = false /\
+  schema_eqb ex_float_nan (SFloat None None None None) = false /\
+  schema_eqb (SFloat None (Some fnan) None None) (SFloat None None (Some fnan) None) = false /\
+  schema_eqb (SList (Some [Some ex_float_nan]) None None None None)
+             (SList (Some [Some ex_float_nan]) None None None None) = true /\
+  schema_eqb (SList None (Some ex_float_nan) None None None)
+             (SList None (Some ex_float_nan) None None None) = true /\
+  verdict ex_float_nan (VFloat fnan) = true /\ verdict ex_float_nan (VFloat (mkf false 1%Z 0%Z)) = false.
+Proof. exact nan_params_lemma. Qed.
 
 (* the same object compared with itself is at least as equal (identity shortcut of
-   list/tuple/dict comparison): schema.list([schema.float(nan)]) == itself, but not its rebuild *)
+   list/tuple/dict comparison) *)
 Theorem eq_self_weaker : forall s, schema_eqb s s = true -> schema_eqb_self s = true.
 Proof. exact eq_self_lemma. Qed.
 Print Assumptions eq_self_weaker.
@@ -60,7 +74,7 @@ Print Assumptions eq_self_weaker.
 (* ---- two independent builds of one declaration (identical parameters: floats bitwise,
         bool and int literals kept apart, patterns by text, keys in the same order) ---- *)
 Theorem rebuild_equal :
-  forall s s', schema_same s s' = true -> keys_distinct s = true -> no_nan_params s = true ->
+  forall s s', schema_same s s' = true -> keys_distinct s = true -> date_params_ok s = true ->
                schema_eqb s s' = true.
 Proof. exact rebuild_equal_lemma. Qed.
 Print Assumptions rebuild_equal.
@@ -89,7 +103,7 @@ Print Assumptions discriminated_unequal.
    (witnesses ex_list_any, ex_list_ell, ex_list_alias are defined in proofs/SchemaEqSpec.v) *)
 
 Theorem eq_same_verdicts_refuted :
-  exists s1 s2 v, wf s1 = true /\ wf s2 = true /\ no_nan_params s1 = true /\ no_nan_params s2 = true /\
+  exists s1 s2 v, wf s1 = true /\ wf s2 = true /\ date_params_ok s1 = true /\ date_params_ok s2 = true /\
                   schema_eqb s1 s2 = true /\ verdict s1 v = false /\ verdict s2 v = true.
 Proof. exact eq_same_verdicts_refuted_lemma. Qed.
 Print Assumptions eq_same_verdicts_refuted.
@@ -149,8 +163,8 @@ Definition ex_c : schema :=
                 (KEll, None, false) ]).
 
 Example ex_hypotheses :
-  wf ex_a = true /\ marker_free ex_a = true /\ no_nan_params ex_a = true /\ keys_distinct ex_a = true /\
-  wf ex_b = true /\ marker_free ex_b = true /\ no_nan_params ex_b = true /\ keys_distinct ex_b = true /\
+  wf ex_a = true /\ marker_free ex_a = true /\ date_params_ok ex_a = true /\ keys_distinct ex_a = true /\
+  wf ex_b = true /\ marker_free ex_b = true /\ date_params_ok ex_b = true /\ keys_distinct ex_b = true /\
   marker_free ex_c = true.
 Proof. vm_compute. auto 12. Qed.
 Example ex_pats : pats_from ex_parse ex_a /\ pats_from ex_parse ex_b /\ pats_from ex_parse ex_c.
@@ -164,19 +178,12 @@ Example ex_variant_unequal :
 Proof. vm_compute. auto. Qed.
 Example ex_refl : schema_eqb ex_a ex_a = true /\ schema_eqb_self ex_a = true.
 Proof. vm_compute. auto. Qed.
-(* NaN inside a container: the object equals itself, its rebuild does not *)
-Example ex_nan_in_list :
-  schema_eqb_self (SList (Some [Some (SFloat (Some fnan) None None None)]) None None None None) = true /\
-  schema_eqb (SList (Some [Some (SFloat (Some fnan) None None None)]) None None None None)
-             (SList (Some [Some (SFloat (Some fnan) None None None)]) None None None None) = false.
-Proof. vm_compute. auto. Qed.
-
 (* the two side hypotheses are not decoration: a key table that repeats a key (no Python
    dict does) is not equal to itself in the model, and two pattern entries with the same
    text but different trees (re's parser never produces that) are equal with different verdicts *)
 Example ex_needs_keys_distinct :
   let s := SDict (Some [(KStr [97], Some (SInt None None None), false); (KStr [97], Some SNone, false)]) in
-  no_nan_params s = true /\ keys_distinct s = false /\ schema_eqb s s = false.
+  date_params_ok s = true /\ keys_distinct s = false /\ schema_eqb s s = false.
 Proof. vm_compute. auto. Qed.
 Example ex_needs_parse :
   let s1 := SStr None None None None None None (Some ([97], [RLit 97])) in
